@@ -1,0 +1,40 @@
+// Copyright 2024 Marc-Antoine Ruel. All rights reserved.
+// Use of this source code is governed under the Apache License, Version 2.0
+// that can be found in the LICENSE file.
+
+// Verification hooks: the console rendering and the stream loop of pp made
+// callable in-process. Compiled in only with -tags verif.
+
+//go:build verif
+
+package internal
+
+import (
+	"io"
+	"regexp"
+
+	"github.com/maruel/panicparse/v2/stack"
+)
+
+func verifPalette(color bool) *Palette {
+	if color {
+		return &defaultPalette
+	}
+	return &Palette{}
+}
+
+// VerifWriteBuckets is writeBucketsToConsole; pf is 0 (full), 1 (relative) or
+// 2 (base name).
+func VerifWriteBuckets(out io.Writer, color bool, a *stack.Aggregated, pf int, filter, match *regexp.Regexp) error {
+	return writeBucketsToConsole(out, verifPalette(color), a, pathFormat(pf), false, filter, match)
+}
+
+// VerifWriteGoroutines is writeGoroutinesToConsole.
+func VerifWriteGoroutines(out io.Writer, color bool, s *stack.Snapshot, pf int, filter, match *regexp.Regexp) error {
+	return writeGoroutinesToConsole(out, verifPalette(color), s, pathFormat(pf), false, filter, match)
+}
+
+// VerifProcess is process() without HTML output.
+func VerifProcess(in io.Reader, out io.Writer, color bool, s stack.Similarity, pf int, parse, rebase bool, filter, match *regexp.Regexp) error {
+	return process(in, out, verifPalette(color), s, pathFormat(pf), parse, rebase, "", filter, match)
+}
